@@ -186,6 +186,17 @@ func (c *Counter) Add(n int64) {
 			debugPrintf("Add %q += %d: locked extra=%d\n", c.name, n, state.extra())
 			return
 
+		case state.readers() > 0:
+			// havePtr was cleared while readers are still using c.ptr.
+			// Taking the lock now would overwrite their reader count;
+			// instead leave the amount in extra: the last reader upgrades
+			// to a full lock, refreshes c.ptr and flushes extra.
+			if !c.state.update(&state, state.addExtra(uint64(n))) {
+				continue
+			}
+			debugPrintf("Add %q += %d: readers extra=%d\n", c.name, n, state.extra())
+			return
+
 		case !state.havePtr():
 			if !c.state.update(&state, state.addExtra(uint64(n)).setLocked()) {
 				continue
